@@ -217,6 +217,7 @@ func runC08(p *core.Prog, r *core.Result) {
 		"R8.2 for every in-module value type with attributes, the names it advertises (AttrNames) are names it answers (Attr): the encoder's has-attrs branch never encodes a nil",
 		"R8.3 a pickler case whose arguments are an open environment (can contain the subject again, since recursion is enabled) needs an in-progress guard, because NEWOBJ results are memoized only after their arguments",
 		"R8.4 no nondeterminism source (clock, pid, random, directory order, addresses, Go-map order into an ordered sink) is reachable from the fingerprint computation",
+		"R8.7 the host pickler builds no (name, value) association lists of its own: only the lists returned by ModuleEnv/Env (one entry per binding, unique names) reach the unpickler's dictionary conversion, which collapses equal names",
 		"R8.6 every argument the host pickler builds for a subject is computed from that subject alone (no captured or package-level state in its data flow): distinct closures never share an argument object that the unpickler then completes in place",
 		"R8.5 nothing dropped: every component of a function's environment (Env, ModuleEnv, Bytecode, Code) flows into the pickled tuple and every tuple element is consumed by the unpickler",
 	}
@@ -339,6 +340,42 @@ func runC08(p *core.Prog, r *core.Result) {
 	}
 	r.Floor("R8.6", nElems, 3, "elements of pickled argument tuples")
 
+	// ---- R8.7 the pickler builds no association lists of its own
+	nPk := 0
+	seenPk := map[*ssa.Function]bool{}
+	for _, pc := range allCases {
+		f := pc.Ret.Parent()
+		if seenPk[f] {
+			continue
+		}
+		seenPk[f] = true
+		nPk++
+		bad := false
+		core.Instrs(f, func(in ssa.Instruction) {
+			sl, ok := in.(*ssa.Slice)
+			if !ok || !core.Reaches(sl.Block(), sl.Block(), false) {
+				return
+			}
+			elems, ok := tupleElems(sl)
+			if !ok || len(elems) != 2 || elems[0] == nil {
+				return
+			}
+			mi, ok := elems[0].(*ssa.MakeInterface)
+			if !ok {
+				return
+			}
+			if n, ok := mi.X.Type().(*types.Named); !ok || n.Obj().Name() != "String" || n.Obj().Pkg() == nil || n.Obj().Pkg().Path() != pkgStar {
+				return
+			}
+			bad = true
+			r.Bad("R8.7", fname(f)+"#builds-association-list", p.InstrPos(sl), "the pickler builds (name, value) pairs in a loop: the unpickler turns association lists into dictionaries, so entries with equal names collapse into one - unlike the lists returned by ModuleEnv/Env (one entry per binding), names chosen here (e.g. names of nested functions: every lambda is called \"lambda\") need not be unique, and an edit to all but the last of them no longer changes the fingerprint")
+		})
+		if !bad {
+			r.OK("R8.7", fname(f)+"#builds-association-list", p.Pos(f.Pos()), "passes the accessors' lists on without keying them itself")
+		}
+	}
+	r.Floor("R8.7", nPk, 1, "pickler functions")
+
 	// ---- R8.5 producer side: results of environment accessors flow into the tuple
 	producers := map[*ssa.Function]bool{}
 	var producerList []*ssa.Function
@@ -455,17 +492,39 @@ func checkModuleTuple(p *core.Prog, r *core.Result, unpicklers []*ssa.Function) 
 	for _, up := range unpicklers {
 		// the module tuple: a value type-asserted to starlark.Tuple from args[0] and indexed with constants
 		idx := map[int64]bool{}
+		isAsserted := func(v ssa.Value) bool {
+			if ta, ok := core.Unwrap(v).(*ssa.TypeAssert); ok && !ta.CommaOk {
+				return true
+			}
+			return isExtractOfAssert(v)
+		}
 		core.Instrs(up, func(in ssa.Instruction) {
-			ia, ok := in.(*ssa.IndexAddr)
-			if !ok {
-				return
-			}
-			if _, isParam := ia.X.(*ssa.Parameter); isParam {
-				return
-			}
-			if kk, ok := core.ConstInt(ia.Index); ok {
-				if ta, ok := core.Unwrap(ia.X).(*ssa.TypeAssert); ok && !ta.CommaOk || isExtractOfAssert(ia.X) {
+			switch x := in.(type) {
+			case *ssa.IndexAddr:
+				if _, isParam := x.X.(*ssa.Parameter); isParam {
+					return
+				}
+				if kk, ok := core.ConstInt(x.Index); ok && isAsserted(x.X) {
 					idx[kk] = true
+				}
+			case *ssa.Call:
+				// the asserted tuple handed to a helper of the module: constant indexes on the corresponding parameter
+				h := core.Callee(x)
+				if h == nil || !core.InModule(h) || h.Blocks == nil {
+					return
+				}
+				for ai, a := range x.Call.Args {
+					if !isAsserted(a) || ai >= len(h.Params) {
+						continue
+					}
+					prm := h.Params[ai]
+					core.Instrs(h, func(hin ssa.Instruction) {
+						if ia, ok := hin.(*ssa.IndexAddr); ok && ia.X == ssa.Value(prm) {
+							if kk, ok := core.ConstInt(ia.Index); ok {
+								idx[kk] = true
+							}
+						}
+					})
 				}
 			}
 		})
